@@ -222,7 +222,16 @@ def _coherence_pattern(cur, ops, hrng, gen):
 
 def shrink_history(case):
     """Candidates: fewer operations first, then a smaller program, then simpler configuration."""
+    nacc = sum(1 for o in case["ops"] if o["op"] == "accept")
+    if case.get("late_accept"):
+        # the ordinary configuration: everything accepted when the process starts
+        c = copy.deepcopy(case)
+        c["late_accept"] = False
+        c["ops"] = [o for o in c["ops"] if o["op"] != "accept"]
+        yield c
     for ops in list_removals(case["ops"], 1):
+        if sum(1 for o in ops if o["op"] == "accept") != nacc:
+            continue        # (a process that never accepts its package is another configuration, not a smaller one)
         c = copy.deepcopy(case)
         c["ops"] = ops
         yield c
@@ -366,6 +375,8 @@ def feature_tags(case):
                 t.add("join")
             if it.get("pspell"):
                 t.add("pathspell:" + it["t"])
+            if it.get("rtarg") is not None:
+                t.add("call:rtarg")
             if it["t"] == "eval" and it.get("spell", "dds") != "dds":
                 t.add("evalspell:" + it["spell"])
     if prog.get("rec_builtin"):
